@@ -78,7 +78,7 @@ pub const TYPES: &[Ty] = &[
     Ty { tag: "F64x5", kind: Kind::F, w: 64, n: 5 },
     Ty { tag: "F128x1", kind: Kind::F, w: 128, n: 1 },
     Ty { tag: "F128x3", kind: Kind::F, w: 128, n: 3 },
-    Ty { tag: "FU64x3", kind: Kind::F, w: 64, n: 3 },
+    Ty { tag: "FU64x5", kind: Kind::F, w: 64, n: 5 },
     Ty { tag: "D", kind: Kind::D, w: 64, n: 0 },
     Ty { tag: "A", kind: Kind::A, w: 64, n: 0 },
 ];
@@ -240,7 +240,7 @@ macro_rules! impl_sub_bvf {
 }
 impl_sub_bvf!("F8x1": u8, 1; "F8x3": u8, 3; "F8x17": u8, 17; "F16x2": u16, 2; "F16x5": u16, 5; "F32x1": u32, 1; "F32x3": u32, 3;
     "F64x1": u64, 1; "F64x2": u64, 2; "F64x5": u64, 5; "F128x1": u128, 1; "F128x3": u128, 3;
-    "FU64x3": usize, 3);
+    "FU64x5": usize, 5);
 
 fn bvd_from(len: usize, ws: &[u128]) -> Bvd {
     let v: Vec<u64> = ws.iter().map(|x| *x as u64).collect();
@@ -304,7 +304,7 @@ macro_rules! for_types {
         $cb!($($pre)* ; "F8x1": bva::Bvf<u8,1>, "F8x3": bva::Bvf<u8,3>, "F8x17": bva::Bvf<u8,17>, "F16x2": bva::Bvf<u16,2>, "F16x5": bva::Bvf<u16,5>,
             "F32x1": bva::Bvf<u32,1>, "F32x3": bva::Bvf<u32,3>, "F64x1": bva::Bvf<u64,1>,
             "F64x2": bva::Bvf<u64,2>, "F64x5": bva::Bvf<u64,5>, "F128x1": bva::Bvf<u128,1>,
-            "F128x3": bva::Bvf<u128,3>, "FU64x3": bva::Bvf<usize,3>, "D": bva::Bvd, "A": bva::Bv)
+            "F128x3": bva::Bvf<u128,3>, "FU64x5": bva::Bvf<usize,5>, "D": bva::Bvd, "A": bva::Bv)
     };
 }
 /// `d1!(tag_expr, func, (args…))` → `match tag { "F8x1" => func::<Bvf<u8,1>>(args…), … }`
